@@ -15,6 +15,7 @@
 #include "link_or_value.h"
 #include "permutation.h"
 #include "thread_info.h"
+#include "verif_hook.h"
 
 #include "glog/logging.h"
 
@@ -50,6 +51,7 @@ public:
                  * clear for preventing heap use after free by reference of
                  * need_delete
                  */
+                YAKUSHIMA_VERIF_YIELD(Y_STORE | Y_CAT_NODE, &lv_);
                 lv_.at(pos).init_lv();
             }
         }
@@ -454,6 +456,7 @@ public:
      */
     void init_border(const std::size_t pos) {
         init_base(pos);
+        YAKUSHIMA_VERIF_YIELD(Y_STORE | Y_CAT_NODE, &lv_);
         lv_.at(pos).init_lv();
     }
 
@@ -575,6 +578,7 @@ public:
 
     void shift_left_border_member(const std::size_t start_pos,
                                   const std::size_t shift_size) {
+        YAKUSHIMA_VERIF_YIELD(Y_STORE | Y_CAT_NODE, &lv_);
         memmove(get_lv_at(start_pos - shift_size), get_lv_at(start_pos),
                 sizeof(link_or_value) * (key_slice_length - start_pos));
     }
